@@ -44,6 +44,20 @@ Definition tmax (t : table) : option nat :=
 Definition tupdate (t : table) (l : list sampler) : option table :=
   match tmax t with None => None | Some m => Some (tconstruct_from (S m) t l) end.
 
+(* RLScheduler._add_or_get_bootstrap_sampler (rl_scheduler.py:80-109): `{type(s): i}` keeps the LAST index of each
+   class; a HaltonSampler(batch_size=1) is appended when the class is absent *)
+Definition HALTON : nat := 9.
+Fixpoint last_index_of (c : nat) (l : list sampler) (k : nat) (acc : option nat) : option nat :=
+  match l with
+  | [] => acc
+  | s :: r => last_index_of c r (S k) (if Nat.eqb (s_class s) c then Some k else acc)
+  end.
+Definition rl_bootstrap (l : list sampler) (fresh : sampler) : list sampler * nat :=
+  match last_index_of HALTON l 0 None with
+  | Some i => (l, i)
+  | None => (l ++ [fresh], length l)
+  end.
+
 Section Calib.
   Variables (Param Series LossV : Type).
   Variable model : Param -> Z -> Series.                    (* model(theta, N, seed); N is configuration *)
